@@ -539,6 +539,17 @@ class Interp:
                 return [(p.env[e.id], p)]
             if e.id in ('True', 'False', 'None'):
                 return [(self._const(eval(e.id)), p)]
+            # a capture-stream class defined at module level (instead of inside the method that
+            # creates the stream) is the same kind of object
+            mod = getattr(self.cls, 'module', None)
+            tree = getattr(mod, 'tree', None)
+            if tree is not None:
+                for st in tree.body:
+                    if isinstance(st, ast.ClassDef) and st.name == e.id and any(
+                            isinstance(x, ast.FunctionDef) and x.name == 'getvalue' for x in st.body):
+                        meths = frozenset(x.name for x in st.body if isinstance(x, ast.FunctionDef))
+                        self.localclasses[st.name] = st
+                        return [(('localcls', st.name, meths), p)]
             return [(OPAQUE, p)]
         if isinstance(e, ast.Attribute):
             return self._attr(e, p)
